@@ -98,7 +98,7 @@ alias_driver("read_geojson", "GeoJSON.read", _w_geojson,
 
 
 # ---- C14 first half: restricting a read never changes what is read (bounded run-time contracts on the real readers) ----
-_TY = {"float": float, "str": str, "int": int, "object": object}
+_TY = {"float": float, "str": str, "int": int, "object": object, "len": len, "bool": bool}      # len / bool: converters that tell '' from a value
 
 
 def _frame_cols(df):
@@ -144,7 +144,7 @@ def restriction_driver(name, cls, meth, write, colkw, tykw, tymaps, from_string=
     def _d(run):
         run.bound = ("one 3-row file with columns a (int), b (str incl. ''), c (float incl. missing), d (str incl. null / absent); every ordering of every "
                      f"subset of 1-3 columns x {len(tymaps)} type maps (incl. maps naming unselected columns)"
-                     + ("; plus a header-only file" if extra_files else ""))
+                     + (f"; plus {len(extra_files)} more file(s): header-only CSV / Parquet written by pandas with a materialised index" if extra_files else ""))
         d = tempfile.mkdtemp(prefix="vfrd")
         try:
             paths = [write(d)] + [w(d) for w in extra_files]
@@ -197,6 +197,20 @@ def restriction_driver(name, cls, meth, write, colkw, tykw, tymaps, from_string=
                     exp = [{k: v for k, v in item.items() if k in cols} for item in full]
                     obs = [dict(x) for x in got]
                     ok = exp == obs and all(type(a[k]) is type(b[k]) for a, b in zip(exp, obs) for k in a)
+                    # "... and casting them": a key read with a converter holds converter(plainly read value) in EVERY item that has
+                    # the key - blank fields and null values included
+                    if ty and ok:
+                        try:
+                            plain_ = read(paths[pi])
+                            same_t = len(plain_) == len(got)
+                            for x, y in zip(plain_, got):
+                                for k, t in ty.items():
+                                    if k in y:
+                                        same_t = same_t and k in x and y[k] == t(x[k]) and type(y[k]) is type(t(x[k]))
+                            run.check(inp, same_t, expected=[{k: (ty[k](v) if k in ty else v) for k, v in x.items() if k in cols} for x in plain_],
+                                      got=obs, clause="a type map gives converter(plainly read value) for every item that has the key")
+                        except Exception as e:
+                            run.check(inp, False, expected="converters applied to the plain read", got=f"raised {type(e).__name__}: {e}", clause="type map == read then convert")
                 run.check(inp, ok, expected=exp, got=obs, clause="every requested column/key holds its own values (any requested order), cast as in the full read")
         finally:
             shutil.rmtree(d, ignore_errors=True)
@@ -204,9 +218,21 @@ def restriction_driver(name, cls, meth, write, colkw, tykw, tymaps, from_string=
 
 
 _DF_TYMAPS = [{}, {"a": "float"}, {"c": "float"}, {"a": "float", "b": "object"}, {"b": "str"}, {"a": "str", "c": "float"}, {"d": "str"}]
-_LOD_TYMAPS = [{}, {"a": "float"}, {"a": "str"}, {"c": "str", "a": "float"}]
+_LOD_TYMAPS = [{}, {"a": "float"}, {"a": "str"}, {"c": "str", "a": "float"}, {"b": "len"}, {"d": "bool", "b": "len"}]
+
+
+def _w_parquet_pandas(d):
+    """the same table written by pandas after a row filter: the index is materialised as an extra column (__index_level_0__) that a
+    restricted read must not bring along"""
+    import pandas as pd
+    p = os.path.join(d, "pandas.parquet")
+    t = pd.DataFrame({"a": [1, 2, 3, 4], "b": ["x", None, "z", "w"], "c": [0.5, float("nan"), 2.0, 1.0], "d": ["p", None, None, "q"]})
+    t[t.a != 2].to_parquet(p)
+    return p
+
 restriction_driver("dataiter/data_frame.py::DataFrame.read_csv[restriction]", DataFrame, "read_csv", _w_csv3, "columns", "dtypes", _DF_TYMAPS)
-restriction_driver("dataiter/data_frame.py::DataFrame.read_parquet[restriction]", DataFrame, "read_parquet", _w_parquet3, "columns", "dtypes", _DF_TYMAPS)
+restriction_driver("dataiter/data_frame.py::DataFrame.read_parquet[restriction]", DataFrame, "read_parquet", _w_parquet3, "columns", "dtypes", _DF_TYMAPS,
+                   extra_files=(_w_parquet_pandas,))
 restriction_driver("dataiter/data_frame.py::DataFrame.read_json[restriction]", DataFrame, "read_json", _w_json3, "columns", "dtypes", _DF_TYMAPS)
 restriction_driver("dataiter/data_frame.py::DataFrame.from_json[restriction]", DataFrame, "from_json", _w_json3, "columns", "dtypes", _DF_TYMAPS, from_string=True)
 restriction_driver("dataiter/list_of_dicts.py::ListOfDicts.read_csv[restriction]", ListOfDicts, "read_csv", _w_csv3, "keys", "types", _LOD_TYMAPS,
@@ -277,7 +303,29 @@ _DF_CALLS = {
     "to_json": lambda d, o: d.to_json() if "d" not in d.colnames else None, "to_string": lambda d, o: d.to_string(),
     "to_pandas": lambda d, o: d.to_pandas(), "to_arrow": lambda d, o: d.to_arrow() if d.g.dtype != object else None,
     "unique": lambda d, o: d.unique("g"), "unselect": lambda d, o: d.unselect("x"), "update": lambda d, o: d.update(o.select("x")),
+    # argument combinations: columns only / rows and columns; a mask that is a column of the receiver or of another frame, alone and
+    # together with column=value pairs (the mask object itself must stay as it was)
+    "slice (columns only)": lambda d, o: d.slice(cols=[1, 0]), "slice (no arguments)": lambda d, o: d.slice(),
+    "slice (rows and columns)": lambda d, o: d.slice(rows=list(range(d.nrow)), cols=[0]), "slice_off (columns only)": lambda d, o: d.slice_off(cols=[0]),
+    "filter (mask = own boolean column)": lambda d, o: d.filter(_bool_col(d)), "filter_out (mask = own boolean column)": lambda d, o: d.filter_out(_bool_col(d)),
+    "filter (mask = column of another frame, with a pair)": lambda d, o: d.filter(_bool_col(o), g=d.g[0]),
+    "filter_out (mask = column of another frame, with a pair)": lambda d, o: d.filter_out(_bool_col(o), g=d.g[0]),
+    "filter (callable returning an own column, with a pair)": lambda d, o: d.filter(lambda f: _bool_col(f), g=d.g[0]),
+    "filter_out (callable returning an own column, with a pair)": lambda d, o: d.filter_out(lambda f: _bool_col(f), g=d.g[0]),
+    "filter (pairs)": lambda d, o: d.filter(g=d.g[0], x=d.x[0]), "filter_out (pairs)": lambda d, o: d.filter_out(g=d.g[0], x=d.x[0]),
+    "cbind (same number of rows)": lambda d, o: d.cbind(o.rename(g="g2", x="x2")), "cbind (one-row frame)": lambda d, o: d.cbind(o.rename(g="g2", x="x2").head(1)) if d.nrow else None,
+    "rbind (other columns)": lambda d, o: d.rbind(o.rename(g="g2")), "update (keywords)": lambda d, o: d.update(x=o.x, z=o.g),
+    "modify (column object)": lambda d, o: d.modify(z=o.x, x=o.g), "select (one)": lambda d, o: d.select("g"),
+    "rename (two)": lambda d, o: d.rename(h="g", y="x"), "drop_na (all columns)": lambda d, o: d.drop_na(), "unique (all columns)": lambda d, o: d.unique(),
+    "copy": lambda d, o: d.copy() and None,     # documented shallow copy: shares the columns; only "inputs unchanged" is checked
 }
+
+
+def _bool_col(f):
+    """a boolean column OBJECT of the frame (not a new vector): the frame's column x when it is boolean"""
+    if f.x.dtype != bool:
+        raise TypeError("no boolean column in this frame")
+    return f.x
 
 
 _GROUPED = ("aggregate", "modify (grouped)")      # group_by marks and returns the receiver (documented exception): done before the snapshot
@@ -371,6 +419,11 @@ def _feature_collections(nmax):
                 yield list(props), mi, 0
                 if len(set(props)) < len(props) and mi < 2:
                     yield list(props), mi, 1
+    if nmax < 3:
+        # small scopes too get some collections of THREE features (a key present in the first and last feature but not in the middle one
+        # needs three): all triples over the first four property sets
+        for props in itertools.product(range(4), repeat=3):
+            yield list(props), 0, 0
 
 
 def _features(props, same_geom):
